@@ -203,7 +203,7 @@ func (lang Language) commentStyle() style {
 		return bcpl
 	case Batch:
 		return batch
-	case BLIF, TCL:
+	case BLIF, LEF, SDC, TCL, XDC:
 		return hash
 	case CMake:
 		return cmake
